@@ -1,5 +1,6 @@
 //! seqx - exhaustive sequential explorers for the flacenc properties (one sub-command per property).
 mod atoms;
+mod bitmodel;
 mod panicx;
 mod props;
 mod report;
